@@ -30,6 +30,7 @@ var c14Instances string
 
 func init() {
 	register(&Property{ID: "C14", Run: runC14, Mutants: []Mutant{
+		{Name: "strings' CountString ranges over runes", File: "waroot/src/strings/bytealg.wa", Old: "\tfor i := 0; i < len(s); i++ {\n\t\tif s[i] == c {\n\t\t\tn++\n\t\t}\n\t}\n\treturn n", New: "\tfor _, v := range s {\n\t\tif rune(c) == v {\n\t\t\tn++\n\t\t}\n\t}\n\treturn n", Expect: "byte-vs-rune-iteration"},
 		{Name: "one byte of the pop-count table changed", File: "waroot/src/math/bits/bits_tables.wa", Old: "\t\"\\x00\\x01\\x01\\x02\\x01\\x02\\x02\\x03\\x01\\x02\\x02\\x03\\x02\\x03\\x03\\x04\" +\n\t\"\\x01\\x02\\x02\\x03\\x02\\x03\\x03\\x04\\x02\\x03\\x03\\x04\\x03\\x04\\x04\\x05\" +", New: "\t\"\\x00\\x01\\x01\\x02\\x01\\x02\\x02\\x03\\x01\\x02\\x02\\x03\\x02\\x03\\x03\\x04\" +\n\t\"\\x01\\x02\\x02\\x03\\x02\\x03\\x03\\x04\\x02\\x03\\x03\\x04\\x03\\x04\\x04\\x04\" +", Expect: "std-table :: math/bits.pop8tab"},
 		{Name: "strings.genSplit skips one byte too few after a separator", File: "waroot/src/strings/strings.wa", Old: "\t\ta[i] = s[:m+sepSave]\n\t\ts = s[m+len(sep):]", New: "\t\ta[i] = s[:m+sepSave]\n\t\ts = s[m+len(sep)-1:]", Expect: "port-body :: strings.genSplit"},
 		{Name: "bits.TrailingZeros32 of zero", File: "waroot/src/math/bits/bits.wa", Old: "func TrailingZeros32(x: u32) => int {\n\tif x == 0 {\n\t\treturn 32", New: "func TrailingZeros32(x: u32) => int {\n\tif x == 0 {\n\t\treturn 31", Expect: "port-body :: math/bits.TrailingZeros32"},
@@ -305,6 +306,9 @@ func runC14(c *Ctx) {
 	goroot := build.Default.GOROOT
 	c.Trusted = []string{"go/parser, go/constant", "the repository's Wa parser as front end for .wa sources", "GOROOT sources (" + goroot + ") as the oracle"}
 	std := LoadWaStd(c, "std-table")
+	if std != nil {
+		c14ByteRune(c, std)
+	}
 	want := map[string]bool{}
 	for _, l := range strings.Split(c14Instances, "\n") {
 		l = strings.TrimSpace(l)
